@@ -351,6 +351,7 @@ type FakeTicker struct {
 	OneShot bool
 	next    int64
 	stopped int32
+	fired   int32 // one-shot: its single tick has been delivered
 	Stops   int32
 	fn      func()
 	Sent    int64
@@ -371,11 +372,14 @@ func newFakeTicker(d time.Duration, oneShot bool) *FakeTicker {
 
 func (f *FakeTicker) stop() bool {
 	atomic.AddInt32(&f.Stops, 1)
-	return atomic.SwapInt32(&f.stopped, 1) == 0
+	return atomic.SwapInt32(&f.stopped, 1) == 0 && !(f.OneShot && atomic.LoadInt32(&f.fired) != 0)
 }
 
 func (f *FakeTicker) reset(d time.Duration) bool {
 	was := atomic.SwapInt32(&f.stopped, 0) == 0
+	if atomic.SwapInt32(&f.fired, 0) != 0 {
+		was = false
+	}
 	f.Period = d
 	atomic.StoreInt64(&f.next, atomic.LoadInt64(&vnow)+int64(d))
 	return was
@@ -383,19 +387,35 @@ func (f *FakeTicker) reset(d time.Duration) bool {
 
 func (f *FakeTicker) Stopped() bool { return atomic.LoadInt32(&f.stopped) != 0 }
 
+// Armed reports whether the source can still deliver a tick: a ticker that was
+// not stopped, or a timer that was neither stopped nor has fired (Reset re-arms it).
+func (f *FakeTicker) Armed() bool {
+	return !f.Stopped() && !(f.OneShot && atomic.LoadInt32(&f.fired) != 0)
+}
+
+func (f *FakeTicker) IsOneShot() bool { return f.OneShot }
+
+func (f *FakeTicker) sent() {
+	atomic.AddInt64(&f.Sent, 1)
+	if f.OneShot {
+		atomic.StoreInt32(&f.fired, 1)
+	}
+}
+
 // Fire delivers one tick the way the runtime does: dropped if the channel
 // buffer is still full. Reports whether it was queued.
 func (f *FakeTicker) Fire() bool {
-	if f.Stopped() {
+	if !f.Armed() {
 		return false
 	}
 	if f.fn != nil {
+		f.sent()
 		go f.fn()
 		return true
 	}
 	select {
 	case f.ch <- time.Unix(0, atomic.LoadInt64(&vnow)):
-		atomic.AddInt64(&f.Sent, 1)
+		f.sent()
 		return true
 	default:
 		atomic.AddInt64(&f.Dropped, 1)
@@ -406,13 +426,16 @@ func (f *FakeTicker) Fire() bool {
 // FireWait delivers one tick, yielding up to maxYields times until the
 // receiver has room for it. Reports whether it was queued.
 func (f *FakeTicker) FireWait(maxYields int) bool {
+	if f.fn != nil {
+		return f.Fire()
+	}
 	for i := 0; i <= maxYields; i++ {
-		if f.Stopped() {
+		if !f.Armed() {
 			return false
 		}
 		select {
 		case f.ch <- time.Unix(0, atomic.LoadInt64(&vnow)):
-			atomic.AddInt64(&f.Sent, 1)
+			f.sent()
 			return true
 		default:
 			runtime.Gosched()
@@ -443,13 +466,13 @@ func ResetTickers() {
 func Advance(d time.Duration) {
 	now := atomic.AddInt64(&vnow, int64(d))
 	for _, f := range Tickers() {
-		if f.Stopped() {
+		if !f.Armed() {
 			continue
 		}
 		for nx := atomic.LoadInt64(&f.next); nx <= now; nx = atomic.LoadInt64(&f.next) {
 			f.Fire()
 			if f.OneShot {
-				atomic.StoreInt32(&f.stopped, 1)
+				atomic.StoreInt32(&f.fired, 1)
 				break
 			}
 			atomic.StoreInt64(&f.next, nx+int64(f.Period))
